@@ -5,6 +5,7 @@ sys.path.insert(0, '/verif')
 from harness import common, engine
 common.prime()
 DESCR = {
+ "C07-numpydoc-trailing-section-read-as-parameters": "numpydoc: a section after Parameters (Raises / Examples ...) is read as further parameters named 'Raises', '------', 'ValueError'",
  "C07-D3-documented-parameters-come-first": "when the docstring documents only some parameters, or documents them out of signature order, the parsed interface lists the documented ones first (in docstring order) and the rest after them - not in source order (kernel-checked: Py.documented_first_witness, Py.irMerge_keys)",
  "C07-D3-undocumented-kwargs-dropped": "an undocumented **kwargs parameter is not listed at all",
  "C07-negative-default-under-a-documented-str-type-left-as-ast": "a negative numeric signature default of a parameter whose docstring declares a str type is left as an unevaluated ast.UnaryOp object in the description",
